@@ -3,7 +3,7 @@
 //! across groups, missing groups, boundary pagination values). No expected results live here.
 
 use rand::rngs::StdRng;
-use rand::SeedableRng;
+use rand::{Rng, SeedableRng};
 use serde_json::{Value, json};
 
 pub struct Cfg {
@@ -52,7 +52,8 @@ pub fn release(g: &str, n: &str) -> Value {
     json!({"op": "Release", "g": g, "n": n})
 }
 pub fn relays(g: &str, urls: &str) -> Value {
-    json!({"op": "Relays", "g": g, "urls": urls})
+    let u: Vec<&str> = urls.split(',').filter(|x| !x.is_empty()).collect();
+    json!({"op": "Relays", "g": g, "urls": u})
 }
 pub fn secret(g: &str, e: i64, v: i64) -> Value {
     json!({"op": "SaveSecret", "g": g, "e": e, "v": v})
@@ -177,7 +178,209 @@ pub fn directed(cfg: &Cfg) -> Vec<Vec<Value>> {
             json!({"op": "FindEpochByTag", "g": "g2", "sub": "abc"}),
         ]);
     }
-    let _ = cfg;
+    // Rollback consumes only (g, n): the same name live for two groups (and a sibling snapshot of the same group)
+    hs.push(vec![
+        save_group("g1", grec("n1", "a", 1)),
+        save_group("g2", grec("n2", "a", 1)),
+        snap("g1", "s1"),
+        snap("g2", "s1"),
+        snap("g1", "s2"),
+        save_group("g1", grec("n1", "b", 2)),
+        save_group("g2", grec("n2", "b", 2)),
+        rollback("g1", "s1"),
+        rollback("g2", "s1"),
+        rollback("g1", "s2"),
+    ]);
+    // RollbackExact: a snapshot taken while the relay set / secrets / MLS rows were EMPTY removes what was added later
+    hs.push(vec![
+        save_group("g1", grec("n1", "a", 1)),
+        snap("g1", "s1"),
+        relays("g1", "r1,r2"),
+        secret("g1", 1, 7),
+        mls_write("g1", "tree", "t1"),
+        leaf("g1", "a"),
+        prop("g1", "q1", "t1"),
+        ekp("g1", 0, 0, "k1"),
+        rollback("g1", "s1"),
+    ]);
+    // RollbackExact + index: the nostr id rotated after the snapshot; another group then wants the rotated id
+    hs.push(vec![
+        save_group("g1", grec("n1", "a", 1)),
+        snap("g1", "s1"),
+        save_group("g1", grec("n2", "b", 2)),
+        rollback("g1", "s1"),
+        save_group("g2", grec("n2", "c", 1)),
+        save_group("g2", grec("n1", "c", 2)),
+    ]);
+    // RollbackExact: same nostr id before and after, the record changed (every reader must see the restored record)
+    hs.push(vec![
+        save_group("g1", grec("n1", "a", 1)),
+        snap("g1", "s1"),
+        save_group("g1", grec("n1", "b", 2)),
+        rollback("g1", "s1"),
+        save_group("g2", grec("n2", "a", 1)),
+    ]);
+    // RollbackExact: the last-message pointer of the record is part of the record
+    {
+        let mut r0 = grec("n1", "a", 1);
+        r0["lmid"] = json!(1);
+        r0["lmat"] = json!(10);
+        r0["lmpat"] = json!(20);
+        let mut r1 = grec("n1", "a", 2);
+        r1["lmid"] = json!(2);
+        r1["lmat"] = json!(11);
+        r1["lmpat"] = json!(21);
+        hs.push(vec![
+            save_group("g1", r0),
+            save_msg("g1", 1, mrec(10, 20, 1, "processed")),
+            snap("g1", "s1"),
+            save_msg("g1", 2, mrec(11, 21, 2, "processed")),
+            save_group("g1", r1),
+            rollback("g1", "s1"),
+            json!({"op": "InvalidateMsgs", "g": "g1", "e": 1}),
+        ]);
+    }
+    // Sorted / LastMessage: ties on created_at, processed_at order opposite to id order; both sort modes; every page
+    hs.push(vec![
+        save_group("g1", grec("n1", "a", 1)),
+        save_msg("g1", 1, mrec(10, 21, 1, "processed")),
+        save_msg("g1", 3, mrec(10, 20, 1, "processed")),
+        save_msg("g1", 2, mrec(10, 20, 1, "processed")),
+        save_msg("g1", 4, mrec(9, 22, 1, "processed")),
+        messages("g1", 1, 0, "c"),
+        messages("g1", 1, 1, "c"),
+        messages("g1", 2, 2, "c"),
+        messages("g1", 3, 3, "p"),
+        messages("g1", 0, 0, "c"),
+        messages("g1", 10000, 0, "p"),
+        messages("g1", 10001, 0, "p"),
+        messages("g2", 1, 0, "c"),
+        messages("g1", -1, -1, ""),
+        json!({"op": "Messages", "g": "g1", "lim": -1, "off": -1, "sort": "", "nopg": 1}),
+        messages("g1", 2, 1000000, "c"),
+    ]);
+    // SaveMessage is an upsert on (group, id): every field of a re-saved message is the new one (incl. processed_at)
+    hs.push(vec![
+        save_group("g1", grec("n1", "a", 1)),
+        save_msg("g1", 1, mrec(10, 20, 1, "created")),
+        save_msg("g1", 2, mrec(10, 21, 1, "processed")),
+        save_msg("g1", 1, json!({"pk": "p2", "k": 7, "ca": 11, "pa": 22, "c": "yo", "t": "abc", "ev": "f", "w": 2, "ep": 2, "st": "processed"})),
+        save_msg("g1", 1, mrec(10, 22, 1, "processed")),
+    ]);
+    // InvalidateMsgs / InvalidateProc select exactly epoch > n of THAT group: same ids and wrappers live in two groups
+    hs.push(vec![
+        save_group("g1", grec("n1", "a", 1)),
+        save_group("g2", grec("n2", "a", 1)),
+        save_msg("g1", 1, mrec(10, 20, 2, "processed")),
+        save_msg("g2", 1, mrec(10, 20, 2, "processed")),
+        save_msg("g1", 2, mrec(10, 20, 1, "processed")),
+        save_msg("g2", 2, mrec(10, 20, -1, "processed")),
+        save_proc(1, prec("g1", 2, "processed")),
+        save_proc(2, prec("g2", 2, "processed")),
+        save_proc(3, prec("", 2, "processed")),
+        json!({"op": "InvalidateMsgs", "g": "g1", "e": 1}),
+        json!({"op": "InvalidateProc", "g": "g1", "e": 1}),
+        json!({"op": "InvalidateMsgs", "g": "g3", "e": 0}),
+        save_msg("g1", 1, mrec(10, 20, 2, "processed")),
+        json!({"op": "InvalidateMsgs", "g": "g2", "e": 2}),
+        json!({"op": "InvalidateMsgs", "g": "g2", "e": 0}),
+    ]);
+    // MarkRetryable only from Failed; FailedForRetry = Failed, no epoch, that group
+    hs.push(vec![
+        save_group("g1", grec("n1", "a", 1)),
+        save_proc(1, prec("g1", -1, "failed")),
+        save_proc(2, prec("g1", 1, "failed")),
+        save_proc(3, prec("g2", -1, "failed")),
+        json!({"op": "MarkRetryable", "w": 1}),
+        json!({"op": "MarkRetryable", "w": 1}),
+        json!({"op": "MarkRetryable", "w": 4}),
+        save_proc(2, prec("g1", -1, "processed")),
+        json!({"op": "MarkRetryable", "w": 2}),
+        save_proc(2, prec("", -1, "failed")),
+    ]);
+    // SaveGroup: re-save with another nostr id (rotation), and a nostr id held by another group (refused, nothing lost)
+    hs.push(vec![
+        save_group("g1", grec("n1", "a", 1)),
+        relays("g1", "r1"),
+        secret("g1", 0, 3),
+        save_msg("g1", 1, mrec(10, 20, 1, "processed")),
+        save_group("g2", grec("n1", "b", 1)),
+        save_group("g2", grec("n2", "b", 1)),
+        save_group("g1", grec("n3", "a", 2)),
+        save_group("g2", grec("n1", "b", 2)),
+        save_group("g1", grec("n1", "a", 3)),
+    ]);
+    // queued proposals / leaf nodes / epoch key pairs / group data are part of the copy
+    hs.push(vec![
+        save_group("g1", grec("n1", "a", 1)),
+        prop("g1", "q1", "t1"),
+        prop("g1", "q2", "t2"),
+        leaf("g1", "a"),
+        ekp("g1", 1, 0, "k1,k2"),
+        mls_write("g1", "group_state", "t1"),
+        mls_write("g2", "group_state", "t2"),
+        snap("g1", "s1"),
+        op1("PropClear", "g1"),
+        prop("g1", "q1", "t2"),
+        op1("LeafDelete", "g1"),
+        json!({"op": "EkpDelete", "g": "g1", "e": 1, "l": 0}),
+        json!({"op": "MlsDelete", "g": "g1", "t": "group_state"}),
+        json!({"op": "GWrite", "tbl": "kp", "k": "k1", "v": "t1"}),
+        json!({"op": "GWrite", "tbl": "sig", "k": "k1", "v": "t2"}),
+        rollback("g1", "s1"),
+        json!({"op": "PropRemove", "g": "g1", "r": "q2"}),
+        json!({"op": "GDelete", "tbl": "kp", "k": "k1"}),
+    ]);
+    // nested snapshots in both orders; release; other tables are never touched
+    hs.push(vec![
+        save_group("g1", grec("n1", "a", 1)),
+        json!({"op": "SaveWelcome", "id": 2, "rec": wrec("g1", "pending")}),
+        json!({"op": "SaveWelcome", "id": 1, "rec": wrec("g2", "pending")}),
+        json!({"op": "SaveWelcome", "id": 3, "rec": wrec("g1", "accepted")}),
+        json!({"op": "SaveProcessedWelcome", "w": 1, "rec": {"wid": 1, "pa": 20, "st": "processed", "fr": ""}}),
+        json!({"op": "PendingWelcomes", "lim": 1, "off": 0}),
+        json!({"op": "PendingWelcomes", "lim": 1, "off": 1}),
+        json!({"op": "PendingWelcomes", "lim": 0, "off": 0}),
+        json!({"op": "PendingWelcomes", "lim": 10001, "off": 0}),
+        json!({"op": "PendingWelcomes", "lim": -1, "off": -1, "nopg": 1}),
+        snap("g1", "s1"),
+        save_group("g1", grec("n1", "a", 2)),
+        snap("g1", "s2"),
+        save_group("g1", grec("n1", "a", 3)),
+        rollback("g1", "s1"),
+        rollback("g1", "s2"),
+        snap("g1", "s1"),
+        release("g1", "s1"),
+        release("g1", "s1"),
+        rollback("g1", "s1"),
+    ]);
+    if cfg.sleeps {
+        // Prune by age: snapshots one second apart (created_at is read back, never predicted)
+        hs.push(vec![
+            save_group("g1", grec("n1", "a", 1)),
+            save_group("g2", grec("n2", "a", 1)),
+            snap("g1", "s1"),
+            sleep(),
+            snap("g2", "s1"),
+            snap("g1", "s2"),
+            prune("at", "g2", "s1", 0),
+            snap("g1", "s1"),
+            prune("at", "g1", "s1", 1),
+        ]);
+    }
+    if cfg.cap > 0 {
+        // per-group cap (memory backend knob): only a NEW id at a full group evicts, and then an oldest message
+        hs.push(vec![
+            save_group("g1", grec("n1", "a", 1)),
+            save_msg("g1", 1, mrec(10, 20, 1, "created")),
+            save_msg("g1", 2, mrec(11, 20, 1, "created")),
+            save_msg("g1", 3, mrec(12, 20, 1, "created")),
+            save_msg("g1", 2, mrec(11, 21, 1, "processed")),
+            save_msg("g1", 3, mrec(12, 21, 1, "processed")),
+            save_msg("g1", 4, mrec(9, 21, 1, "processed")),
+            save_msg("g1", 1, mrec(13, 21, 1, "processed")),
+        ]);
+    }
     hs
 }
 
@@ -193,6 +396,216 @@ pub fn generate(cfg: &Cfg) -> Vec<Vec<Value>> {
     hs
 }
 
-fn random_history(_cfg: &Cfg, _rng: &mut StdRng) -> Vec<Value> {
-    vec![]
+// ---------------------------------------------------------------- seeded random histories
+fn pick<'a, T: Clone>(rng: &mut StdRng, xs: &'a [T]) -> T {
+    xs[rng.gen_range(0..xs.len())].clone()
+}
+
+struct Gen<'a> {
+    rng: &'a mut StdRng,
+    groups: Vec<String>,
+    exists: Vec<bool>, // optimistic bookkeeping to bias choices only (never used to judge a result)
+}
+
+impl Gen<'_> {
+    fn g(&mut self) -> String {
+        pick(self.rng, &self.groups)
+    }
+    /// mostly a group believed to exist
+    fn ge(&mut self) -> String {
+        let ex: Vec<String> = self.groups.iter().zip(&self.exists).filter(|(_, e)| **e).map(|(g, _)| g.clone()).collect();
+        if !ex.is_empty() && self.rng.gen_bool(0.85) { pick(self.rng, &ex) } else { self.g() }
+    }
+    fn name(&mut self) -> String {
+        pick(self.rng, &["s1", "s1", "s2"]).to_string()
+    }
+    fn group_rec(&mut self, g: &str) -> Value {
+        let own = format!("n{}", &g[1..]);
+        let nid = if self.rng.gen_bool(0.7) && g != "g4" { own } else { pick(self.rng, &["n1", "n2", "n3"]).to_string() };
+        let lm = self.rng.gen_bool(0.5);
+        json!({"nid": nid, "name": pick(self.rng, &["a", "b"]), "desc": pick(self.rng, &["d", ""]), "epoch": self.rng.gen_range(0..4),
+               "st": pick(self.rng, &["active", "active", "inactive", "pending"]), "admins": pick(self.rng, &["", "p1", "p1,p2"]),
+               "lmid": if lm { pick(self.rng, &[1, 2, 3]) } else { -1 }, "lmat": if lm { pick(self.rng, &[10, 11]) } else { pick(self.rng, &[-1, -1, 10]) },
+               "lmpat": if lm { pick(self.rng, &[20, 21]) } else { -1 }, "img": pick(self.rng, &[0, 0, 3]), "su": pick(self.rng, &[0, 50])})
+    }
+    fn msg_rec(&mut self) -> Value {
+        json!({"pk": pick(self.rng, &["p1", "p2"]), "k": pick(self.rng, &[9, 9, 7]), "ca": pick(self.rng, &[10, 10, 11]), "pa": pick(self.rng, &[20, 21, 21, 22]),
+               "c": pick(self.rng, &["hi", "yo"]), "t": pick(self.rng, &["", "", "abc", "a_c%"]), "ev": pick(self.rng, &["e", "f"]), "w": pick(self.rng, &[1, 2, 3]),
+               "ep": pick(self.rng, &[-1, 0, 1, 2, 3]), "st": pick(self.rng, &["created", "processed", "processed", "deleted", "epoch_invalidated"])})
+    }
+    fn proc_rec(&mut self) -> Value {
+        let g = if self.rng.gen_bool(0.2) { String::new() } else { self.g() };
+        json!({"mid": pick(self.rng, &[-1, 1, 2]), "pa": pick(self.rng, &[20, 21]), "ep": pick(self.rng, &[-1, -1, 0, 1, 2]), "g": g,
+               "st": pick(self.rng, &["created", "processed", "processed_commit", "failed", "failed", "epoch_invalidated", "retryable"]),
+               "fr": pick(self.rng, &["", "boom"])})
+    }
+    fn welcome_rec(&mut self) -> Value {
+        let g = self.g();
+        json!({"ev": pick(self.rng, &["e", "f"]), "g": g, "nid": pick(self.rng, &["n1", "n2"]), "name": pick(self.rng, &["a", "b"]), "desc": "d",
+               "img": pick(self.rng, &[0, 3]), "admins": pick(self.rng, &["", "p1", "p1,p2"]), "relays": pick(self.rng, &["", "r1", "r1,r2"]),
+               "by": pick(self.rng, &["p1", "p2"]), "mc": pick(self.rng, &[2, 3]), "st": pick(self.rng, &["pending", "pending", "accepted", "declined", "ignored"]),
+               "w": pick(self.rng, &[1, 2, 3])})
+    }
+    fn lim(&mut self) -> i64 {
+        pick(self.rng, &[-1, 0, 1, 1, 2, 2, 3, 10000, 10001])
+    }
+    fn off(&mut self) -> i64 {
+        pick(self.rng, &[-1, 0, 0, 1, 1, 2, 3, 5, 1000000, -4, -4, -3, -2])
+    }
+
+    fn op(&mut self, kind: &str) -> Value {
+        match kind {
+            "group" => {
+                let g = if self.rng.gen_bool(0.6) { self.g() } else { self.ge() };
+                let rec = self.group_rec(&g);
+                if let Some(i) = self.groups.iter().position(|x| *x == g) {
+                    self.exists[i] = true;
+                }
+                save_group(&g, rec)
+            }
+            "relays" => {
+                let g = self.ge();
+                relays(&g, pick(self.rng, &["", "r1", "r2", "r1,r2"]))
+            }
+            "secret" => {
+                let g = self.ge();
+                secret(&g, pick(self.rng, &[0, 1, 2]), pick(self.rng, &[1, 2, 3]))
+            }
+            "msg" => {
+                let g = self.ge();
+                let rec = self.msg_rec();
+                save_msg(&g, pick(self.rng, &[1, 1, 2, 2, 3, 4]), rec)
+            }
+            "proc" => {
+                let rec = self.proc_rec();
+                save_proc(pick(self.rng, &[1, 2, 3]), rec)
+            }
+            "inval" => {
+                let g = self.ge();
+                json!({"op": pick(self.rng, &["InvalidateMsgs", "InvalidateMsgs", "InvalidateProc"]), "g": g, "e": pick(self.rng, &[0, 1, 2])})
+            }
+            "retry" => json!({"op": "MarkRetryable", "w": pick(self.rng, &[1, 2, 3])}),
+            "tag" => {
+                let g = self.ge();
+                json!({"op": "FindEpochByTag", "g": g, "sub": pick(self.rng, &["abc", "b", "a_c", "c%", "%", "zz", "ABC", "B"])})
+            }
+            "list" => {
+                let g = self.ge();
+                let (l, o) = (self.lim(), self.off());
+                if self.rng.gen_bool(0.05) {
+                    json!({"op": "Messages", "g": g, "lim": -1, "off": -1, "sort": "", "nopg": 1})
+                } else {
+                    messages(&g, l, o, pick(self.rng, &["", "c", "c", "p", "p"]))
+                }
+            }
+            "welcome" => {
+                let rec = self.welcome_rec();
+                json!({"op": "SaveWelcome", "id": pick(self.rng, &[1, 2, 3]), "rec": rec})
+            }
+            "pwelcome" => json!({"op": "SaveProcessedWelcome", "w": pick(self.rng, &[1, 2, 3]),
+                                 "rec": {"wid": pick(self.rng, &[-1, 1, 2]), "pa": pick(self.rng, &[20, 21]), "st": pick(self.rng, &["processed", "failed"]), "fr": pick(self.rng, &["", "boom"])}}),
+            "pending" => {
+                let (l, o) = (self.lim(), self.off());
+                if self.rng.gen_bool(0.1) { json!({"op": "PendingWelcomes", "lim": -1, "off": -1, "nopg": 1}) } else { json!({"op": "PendingWelcomes", "lim": l, "off": o}) }
+            }
+            "snap" => {
+                let g = if self.rng.gen_bool(0.9) { self.ge() } else { self.g() };
+                let n = self.name();
+                snap(&g, &n)
+            }
+            "rollback" => {
+                let g = self.ge();
+                let n = self.name();
+                rollback(&g, &n)
+            }
+            "release" => {
+                let g = self.ge();
+                let n = self.name();
+                release(&g, &n)
+            }
+            "prune" => {
+                let g = self.ge();
+                let n = self.name();
+                match self.rng.gen_range(0..6) {
+                    0 => prune("none", "", "", 0),
+                    1 => prune("all", "", "", 0),
+                    2 | 3 => prune("at", &g, &n, 0),
+                    _ => prune("at", &g, &n, 1),
+                }
+            }
+            "gd" => {
+                let g = self.ge();
+                let t = if self.rng.gen_bool(0.8) { pick(self.rng, &["tree", "group_state", "context"]) } else { pick(self.rng, &crate::store::MLS_TYPES) };
+                if self.rng.gen_bool(0.75) { mls_write(&g, t, pick(self.rng, &["t1", "t2"])) } else { json!({"op": "MlsDelete", "g": g, "t": t}) }
+            }
+            "leaf" => {
+                let g = self.ge();
+                if self.rng.gen_bool(0.9) { leaf(&g, pick(self.rng, &["a", "b", "c"])) } else { op1("LeafDelete", &g) }
+            }
+            "prop" => {
+                let g = self.ge();
+                match self.rng.gen_range(0..5) {
+                    0 => op1("PropClear", &g),
+                    1 => json!({"op": "PropRemove", "g": g, "r": pick(self.rng, &["q1", "q2"])}),
+                    _ => prop(&g, pick(self.rng, &["q1", "q2"]), pick(self.rng, &["t1", "t2"])),
+                }
+            }
+            "ekp" => {
+                let g = self.ge();
+                let (e, l) = (pick(self.rng, &[0, 1]), pick(self.rng, &[0, 1]));
+                if self.rng.gen_bool(0.75) { ekp(&g, e, l, pick(self.rng, &["k1", "k1,k2", "k2"])) } else { json!({"op": "EkpDelete", "g": g, "e": e, "l": l}) }
+            }
+            "glob" => {
+                let tbl = pick(self.rng, &["kp", "sig", "enc", "psk"]);
+                let k = pick(self.rng, &["k1", "k2"]);
+                if self.rng.gen_bool(0.75) { json!({"op": "GWrite", "tbl": tbl, "k": k, "v": pick(self.rng, &["t1", "t2"])}) } else { json!({"op": "GDelete", "tbl": tbl, "k": k}) }
+            }
+            _ => unreachable!(),
+        }
+    }
+}
+
+/// (kind, weight) per profile
+fn weights(profile: &str) -> Vec<(&'static str, u32)> {
+    match profile {
+        // C09: group-scoped tables + snapshot calls, with the other tables populated so that their loss would show
+        "snap" => vec![("group", 14), ("relays", 6), ("secret", 6), ("gd", 5), ("leaf", 7), ("prop", 5), ("ekp", 4), ("glob", 3),
+                       ("msg", 8), ("proc", 4), ("welcome", 3), ("pwelcome", 1), ("inval", 2),
+                       ("snap", 14), ("rollback", 12), ("release", 3), ("prune", 3)],
+        // C18 / C10 listing: messages with colliding timestamps, every pagination value, invalidation, pointer fields
+        "msgs" => vec![("group", 10), ("msg", 30), ("list", 22), ("inval", 7), ("proc", 6), ("retry", 3), ("tag", 4),
+                       ("snap", 4), ("rollback", 4), ("prune", 1)],
+        // C10: everything
+        _ => vec![("group", 10), ("relays", 4), ("secret", 4), ("gd", 3), ("leaf", 4), ("prop", 3), ("ekp", 2), ("glob", 3),
+                  ("msg", 14), ("proc", 8), ("inval", 5), ("retry", 4), ("tag", 3), ("list", 8),
+                  ("welcome", 6), ("pwelcome", 3), ("pending", 5), ("snap", 6), ("rollback", 5), ("release", 2), ("prune", 2)],
+    }
+}
+
+fn random_history(cfg: &Cfg, rng: &mut StdRng) -> Vec<Value> {
+    let ng = rng.gen_range(1..=cfg.ng);
+    let groups: Vec<String> = (1..=ng).map(|k| format!("g{}", k)).collect();
+    let w = weights(&cfg.profile);
+    let total: u32 = w.iter().map(|x| x.1).sum();
+    let mut g = Gen { rng, exists: vec![false; groups.len()], groups };
+    let mut h = vec![];
+    // most histories start by creating a group, so that they do not spend their steps on refusals
+    if g.rng.gen_bool(0.8) {
+        let rec = g.group_rec("g1");
+        g.exists[0] = true;
+        h.push(save_group("g1", rec));
+    }
+    while h.len() < cfg.steps {
+        let mut x = g.rng.gen_range(0..total);
+        let mut kind = w[0].0;
+        for (k, wt) in &w {
+            if x < *wt {
+                kind = k;
+                break;
+            }
+            x -= wt;
+        }
+        h.push(g.op(kind));
+    }
+    h
 }
